@@ -2,6 +2,7 @@
 """Unit registry: recipes for every extracted covfie function."""
 import re
 from recipe import Fn, Unit
+from extract import ExtractionError
 
 CORE = "lib/core/covfie/core/"
 NUMERIC = CORE + "utility/numeric.hpp"
@@ -423,6 +424,42 @@ def make_layer_io(name, consts, L="1"):
     return Unit(name, fns, "contracts/layer_io.h", "lemmas/layer_io.c")
 
 
+# ---------------------------------------------------------------- conversion bodies (C05)
+COPY_SUBST = [
+    (r"__typeof__\s*\(\s*sizes\s*\)", "ND_SIZE_T", 0, True),
+    ("configuration_t", "ND_SIZE_T", 0),
+] + LAYER_SUBST + [
+    (r"\bnother\s*\.\s*at\s*\(\s*t\s*\)", "source_at_nd(t)", 0, True),
+    (r"\bnother\s*\.\s*at\s*\(", "source_at(", 0, True),
+]
+
+
+def make_copy(name, consts, L="2", N="2"):
+    n = int(N)
+    fns = []
+    if L == "2":
+        fns += numeric_fns_size_t()
+        fns.append(Fn("morton_pdep_compute", MORTON, ["struct morton_pdep_mask"], "compute",
+                      ret="size_t", ptypes=["IN_VEC_T", None], params_hint=r"index_sequence", vec_types=["IN_VEC_T"],
+                      fold=("Idxs", list(range(n))),
+                      subst_post=[(r"get_mask\s*<\s*(\d+)\s*>\s*::\s*value", r"VERIF_CAT(VERIF_MORTON_MASK_N%d_I\1_, IN_SCALAR_T)" % n, 0, True)]))
+        fns.append(Fn("morton_calculate_index", MORTON, ["struct morton"], "calculate_index",
+                      ret="size_t", ptypes=["IN_VEC_T"], vec_types=["IN_VEC_T"],
+                      subst=COMMON_SUBST + [(r"(?s)morton_pdep_mask\s*<.*?>\s*::\s*compute", "morton_pdep_compute", 0, True), ("use_bmi2", "VERIF_USE_BMI2", 0)]))
+        fns.append(Fn("morton_copy_elem", MORTON, ["struct morton"], "make_morton_copy", kind="lambda", lambda_marker=r"\[[^\]]*&\s*res\s*\]",
+                      ret="void", ptypes=["ND_SIZE_T"], vec_types=["ND_SIZE_T", "IN_VEC_T"], method="OUT_VEC_T *res, ND_SIZE_T sizes",
+                      arrays=["sizes"], arrays2=["res"], call_index=["source_at", "source_at_nd"],
+                      subst=COPY_SUBST + [("calculate_index(", "morton_calculate_index(", 0)]))
+        return Unit(name, fns, "contracts/copy.h", "lemmas/copy.c", stubs=[],
+                    pre_includes=["stubs/numeric_size_t.h", "contracts/numeric.h", "stubs/pdep.h", "stubs/algorithm.h"])
+    if L == "1":
+        fns.append(Fn("strided_copy_elem", STRIDED, ["struct strided"], "make_strided_copy", kind="lambda", lambda_marker=r"\[[^\]]*&\s*res\s*\]",
+                      ret="void", ptypes=["ND_SIZE_T"], vec_types=["ND_SIZE_T", "IN_VEC_T"], method="OUT_VEC_T *res, ND_SIZE_T sizes",
+                      arrays=["sizes"], arrays2=["res"], call_index=["source_at", "source_at_nd"], subst=COPY_SUBST))
+        return Unit(name, fns, "contracts/copy.h", "lemmas/copy.c")
+    raise ExtractionError("unknown copy layer")
+
+
 def get_unit(name, consts=None):
     """name is 'base' or 'base@k=v,k=v' for units whose extraction depends on template arguments."""
     if name in UNITS:
@@ -450,3 +487,4 @@ FACTORIES["constant"] = make_constant
 FACTORIES["identity"] = make_identity
 FACTORIES["linear"] = make_linear
 FACTORIES["layer_io"] = make_layer_io
+FACTORIES["copy"] = make_copy
